@@ -39,3 +39,24 @@ PROPS["C05"] = dict(
     undecided=[],
     explanation="",
 )
+
+
+# ===================================================================================== C11
+def arch_units(arch):
+    return ["%s.%s" % (arch, f) for f in ("TrailingZeroes", "LeadingZeroes", "CountOnes", "PrefixXor")]
+
+ARCHS = (("avx2", "VEC_LEN=32"), ("sse", "VEC_LEN=16"))
+C11_JOBS = []
+for arch, vdef in ARCHS:
+    base = arch_units(arch) + ["IsSpace", arch + ".GetNonSpaceBits", "skip_space_safe"]
+    C11_JOBS.append(dict(
+        id="C11.GetNonSpaceBits@" + arch, src="c11_space.c", harness="h_GetNonSpaceBits", units=base, defs=[vdef], arch=arch,
+        route="L", function="GetNonSpaceBits", enforce="GetNonSpaceBits", unwind=65,
+        claims="64 symbolic bytes: bit i set iff byte i is not RFC 8259 whitespace (ghost index); reads exactly 64 bytes"))
+C11_JOBS.append(dict(
+    id="C11.skip_space_safe", src="c11_space.c", harness="h_skip_space_safe", units=arch_units("avx2") + ["IsSpace", "avx2.GetNonSpaceBits", "skip_space_safe"],
+    defs=["VEC_LEN=32"], arch="avx2", route="U", function="skip_space_safe", enforce="skip_space_safe", replace=["GetNonSpaceBits"],
+    loop_contracts=True, expect_loops=2, cbmc_unwindset="skip_space_safe_wrapped_for_contract_checking.0:2", timeout=900, replay="skip_space_safe",
+    claims="any len<=2^31-1 incl. 0, any pos<=len, any well-formed cache: reads stay in [data,data+len); pos monotone, pos'<=len; skipped bytes are whitespace; returned byte is the first non-space; cache stays consistent (shared body: identical for both arches)"))
+PROPS["C11"] = dict(
+    level="other", jobs=C11_JOBS, trusted_base=COMMON_TRUST + MODEL_TRUST, assumptions=[], undecided=[], explanation="")
